@@ -240,3 +240,7 @@ impl fmt::Debug for Park {
         f.debug_struct("Park").field("state", &self.state).finish()
     }
 }
+
+#[cfg(kani)]
+#[path = "/verif/harness/may/park.rs"]
+mod verif_kani;
